@@ -45,6 +45,9 @@ def tasks(tier):
     # a child that ignores SIGHUP/SIGINT: close(force=False)/terminate() fail first, the death comes later
     for f in (('exit', 3), ('sig', 9), ('sig', 15)):
         out.append(dict(kind='rep', fate=list(f), tier=tier, disposition='ignores'))
+    # fault answer: kill() reports ESRCH for the child that has just died (terminate()'s "except OSError" branch)
+    for f in (('exit', 7), ('sig', 10)):
+        out.append(dict(kind='rep', fate=list(f), tier=tier, disposition='kill-esrch'))
     for i in range(8):
         out.append(dict(kind='all', part=i, parts=8, tier=tier))
     out.append(dict(kind='popen', tier=tier))
